@@ -62,6 +62,7 @@ class Ctx:
         self.sample = None
         self.excluded = None
         self.weakened = None
+        self.extra_nt = 0  # further distinct non-trivial sub-cases inside this case (distinct by construction)
         self.evals = 1
 
     def label(self, *names):
@@ -110,7 +111,8 @@ class Ctx:
 
 
 class Facet:
-    def __init__(self, name, strategy, check, quick=200, thorough=3000, doc=""):
+    def __init__(self, name, strategy, check, quick=200, thorough=3000, doc="", qshards=1):
+        self.qshards = qshards
         self.name = name
         self.strategy = strategy
         self.check = check
@@ -170,6 +172,7 @@ class Result:
             h = case_hash(case)
             if h not in self.hashes:
                 self.hashes.add(h)
+                self.nt_extra += ctx.extra_nt
                 if len(self.samples) < 3 and ctx.sample is not None:
                     self.samples.append(ctx.sample)
 
@@ -450,7 +453,7 @@ def run_facets(prop, modname, tier, seed, only=None, scale=1.0, procs=16):
             total = int((f.quick if tier == "quick" else f.thorough) * scale)
             if total <= 0:
                 continue
-            ns = 1 if tier == "quick" else min(procs, max(1, total // 50))
+            ns = max(1, getattr(f, "qshards", 1)) if tier == "quick" else min(max(1, procs), max(1, total // 50))
             per = int(math.ceil(total / ns))
             for s in range(ns):
                 jobs.append((prop, modname, f.name, tier, seed, s, ns, per))
